@@ -63,6 +63,12 @@ Proof. exact table_accepted_iff. Qed.
 Theorem c18_accepted_tables_are_compatible : forall ms, snd (build_table ms) = [] -> compatible (all_pairs ms).
 Proof. exact accepted_table_is_compatible. Qed.
 
+(* two claims written with different handler names never end up under one reply id constant: names
+   whose constants coincide (`handler1` / `handler_1`) are rejected instead of being merged silently *)
+Theorem c18_handler_names_sharing_a_constant_are_rejected : forall ms, snd (build_table ms) = [] ->
+  forall p1 p2, In p1 (all_pairs ms) -> In p2 (all_pairs ms) -> snd p1 <> snd p2 -> rid_of p1 <> rid_of p2.
+Proof. intros ms H. exact (compatible_names_have_their_own_constant _ (accepted_table_is_compatible ms H)). Qed.
+
 Check c18_reply_table_accepted_iff.
 
 (* Non-vacuity: a valid table is accepted, its one-edit neighbours are rejected *)
@@ -76,6 +82,12 @@ Example c18_example :
   snd (build_table [m_ok; m_err_bad]) = [RMismatchedParam] /\
   snd (build_table [m_ok; m_any]) = [RDuplicated] /\
   snd (build_table [m_ok; m_ok]) = [RDuplicated].
+Proof. vm_compute. repeat split; reflexivity. Qed.
+
+Definition m_ok_1 : rmethod := {| rm_name := "a"; rm_on := ROSuccess; rm_handlers := ["handler1"]; rm_fields := [fld "p" "u32" None false] |}.
+Definition m_err_1 : rmethod := {| rm_name := "b"; rm_on := ROError; rm_handlers := ["handler_1"]; rm_fields := [fld "error" "String" None false; fld "p" "u32" None false] |}.
+Example c18_example_clash :
+  reply_id_of "handler1" = reply_id_of "handler_1" /\ snd (build_table [m_ok_1; m_err_1]) = [RHandlerClash] /\ snd (build_table [m_err_1; m_ok_1]) = [RHandlerClash].
 Proof. vm_compute. repeat split; reflexivity. Qed.
 
 Print Assumptions c18_missing_constructor.
@@ -95,3 +107,4 @@ Print Assumptions c18_unknown_override_kind.
 Print Assumptions c18_unknown_feature.
 Print Assumptions c18_reply_table_accepted_iff.
 Print Assumptions c18_accepted_tables_are_compatible.
+Print Assumptions c18_handler_names_sharing_a_constant_are_rejected.
